@@ -1,3 +1,212 @@
-import Rtcp.Lemmas.Safe6
+/-
+  C08 — Marshal never silently truncates: out-of-range values are errors.
+  `ok_implies_limits`: whenever Marshal returns bytes, the value is inside every wire limit the property lists;
+  `*_at_limit`: values exactly at the limits are accepted. The emitted counts/lengths equal the content by the
+  round-trip theorems of C02 (decode reads back exactly the value).
+  Known finding (KF-LEN-WRAP): for oversized packets the 16-bit header length wraps silently — the theorems about
+  sizes carry `marshalSize ≤ 262144`.
+-/
+import Rtcp.Lemmas.Frame
+import Rtcp.Model.Remb
 namespace Rtcp.C08
+open Rtcp Gen Out
+set_option linter.unusedSimpArgs false
+set_option linter.unusedVariables false
+
+theorem header_limit {h : Header} {b : Bytes} (e : h.enc = .ok b) : h.count ≤ 31 := by
+  unfold Header.enc at e
+  split at e
+  · cases e
+  · omega
+
+theorem reception_report_limit {r : ReceptionReport} {b : Bytes} (e : r.enc = .ok b) : r.totalLost < 16777216 := by
+  unfold ReceptionReport.enc at e
+  split at e
+  · cases e
+  · omega
+
+theorem encReports_limit {rs : List ReceptionReport} {b : Bytes} (e : encReports rs = .ok b) : ∀ r ∈ rs, r.totalLost < 16777216 := by
+  induction rs generalizing b with
+  | nil => simp
+  | cons r rs ih =>
+    simp only [encReports] at e
+    obtain ⟨a, ha, e⟩ := bind_eq_ok.mp e
+    obtain ⟨c, hc, e⟩ := bind_eq_ok.mp e
+    intro x hx
+    rcases List.mem_cons.mp hx with h | h
+    · subst h; exact reception_report_limit ha
+    · exact ih hc x h
+
+/-- SenderReport: at most 31 reports, every cumulative-lost below 2^24 -/
+theorem sr_limits {v : SenderReport} {b : Bytes} (e : v.enc = .ok b) :
+    v.reports.length ≤ 31 ∧ ∀ r ∈ v.reports, r.totalLost < 16777216 := by
+  unfold SenderReport.enc at e
+  obtain ⟨reps, hr, e⟩ := bind_eq_ok.mp e
+  split at e
+  · cases e
+  · rename_i h; simp at h; exact ⟨h, encReports_limit hr⟩
+
+theorem rr_limits {v : ReceiverReport} {b : Bytes} (e : v.enc = .ok b) :
+    v.reports.length ≤ 31 ∧ ∀ r ∈ v.reports, r.totalLost < 16777216 := by
+  unfold ReceiverReport.enc at e
+  obtain ⟨reps, hr, e⟩ := bind_eq_ok.mp e
+  split at e
+  · cases e
+  · rename_i h; simp at h; exact ⟨h, encReports_limit hr⟩
+
+theorem item_limits {i : SDESItem} {b : Bytes} (e : i.enc = .ok b) : i.type ≠ 0 ∧ i.text.length ≤ 255 := by
+  unfold SDESItem.enc at e
+  split at e
+  · cases e
+  · split at e
+    · cases e
+    · rename_i h1 h2; simp at h1 h2; exact ⟨h1, h2⟩
+
+theorem encItems_limits {is : List SDESItem} {b : Bytes} (e : encItems is = .ok b) : ∀ i ∈ is, i.type ≠ 0 ∧ i.text.length ≤ 255 := by
+  induction is generalizing b with
+  | nil => simp
+  | cons i is ih =>
+    simp only [encItems] at e
+    obtain ⟨a, ha, e⟩ := bind_eq_ok.mp e
+    obtain ⟨c, hc, e⟩ := bind_eq_ok.mp e
+    intro x hx
+    rcases List.mem_cons.mp hx with h | h
+    · subst h; exact item_limits ha
+    · exact ih hc x h
+
+theorem encChunks_limits {cs : List SDESChunk} {b : Bytes} (e : encChunks cs = .ok b) :
+    ∀ c ∈ cs, ∀ i ∈ c.items, i.type ≠ 0 ∧ i.text.length ≤ 255 := by
+  induction cs generalizing b with
+  | nil => simp
+  | cons c cs ih =>
+    simp only [encChunks] at e
+    obtain ⟨a, ha, e⟩ := bind_eq_ok.mp e
+    obtain ⟨d, hd, e⟩ := bind_eq_ok.mp e
+    intro x hx
+    rcases List.mem_cons.mp hx with h | h
+    · subst h
+      unfold SDESChunk.enc at ha
+      obtain ⟨its, hi, _⟩ := bind_eq_ok.mp ha
+      exact encItems_limits hi
+    · exact ih hd x h
+
+/-- SourceDescription: at most 31 chunks, no item of type 0, every text at most 255 octets -/
+theorem sdes_limits {v : SourceDescription} {b : Bytes} (e : v.enc = .ok b) :
+    v.chunks.length ≤ 31 ∧ ∀ c ∈ v.chunks, ∀ i ∈ c.items, i.type ≠ 0 ∧ i.text.length ≤ 255 := by
+  unfold SourceDescription.enc at e
+  obtain ⟨cs, hc, e⟩ := bind_eq_ok.mp e
+  split at e
+  · cases e
+  · rename_i h; simp at h; exact ⟨h, encChunks_limits hc⟩
+
+/-- Goodbye: at most 31 sources, reason at most 255 octets -/
+theorem bye_limits {v : Goodbye} {b : Bytes} (e : v.enc = .ok b) : v.sources.length ≤ 31 ∧ v.reason.length ≤ 255 := by
+  unfold Goodbye.enc at e
+  split at e
+  · cases e
+  · split at e
+    · cases e
+    · rename_i h1 h2; simp at h1 h2; exact ⟨h1, by omega⟩
+
+/-- ApplicationDefined: name of exactly 4 octets, subtype at most 31, data within the length field -/
+theorem app_limits {v : ApplicationDefined} {b : Bytes} (e : v.enc = .ok b) :
+    v.name.length = 4 ∧ v.subType ≤ 31 ∧ v.data.length ≤ 65523 := by
+  unfold ApplicationDefined.enc at e
+  split at e
+  · cases e
+  · split at e
+    · cases e
+    · rename_i h1 h2
+      obtain ⟨hb, hh, _⟩ := bind_eq_ok.mp e
+      have := header_limit hh
+      simp at h1 h2 this
+      exact ⟨h2, this, by omega⟩
+
+/-- REMB: at most 255 SSRCs, bitrate not negative -/
+theorem remb_limits {v : Remb} {b : Bytes} (e : v.enc = .ok b) : v.ssrcs.length ≤ 255 ∧ f32Neg v.bitrate = false := by
+  unfold Remb.enc at e
+  split at e
+  · cases e
+  · rename_i h
+    obtain ⟨⟨m, ex⟩, hm, _⟩ := bind_eq_ok.mp e
+    refine ⟨by omega, ?_⟩
+    unfold rembEncBitrate at hm
+    dsimp only at hm
+    split at hm
+    · cases hm
+    · rename_i hn; simpa using hn
+
+/-- RFC 8888 report block: at most 16384 metric blocks -/
+theorem ccfb_block_limits {v : CcfbBlock} {b : Bytes} (e : v.enc = .ok b) : v.metrics.length ≤ 16384 := by
+  unfold CcfbBlock.enc at e
+  split at e
+  · cases e
+  · rename_i h; simp at h; exact h
+
+/-- TWCC receive delta: inside its 1- or 2-octet range (in 250 µs ticks, Go's truncating division) -/
+theorem delta_limits {d : RecvDelta} {b : Bytes} (e : d.enc = .ok b) :
+    (d.type = 1 ∧ 0 ≤ tdiv d.delta 250 ∧ tdiv d.delta 250 ≤ 255) ∨
+    (d.type = 2 ∧ -32768 ≤ tdiv d.delta 250 ∧ tdiv d.delta 250 ≤ 32767) := by
+  unfold RecvDelta.enc at e
+  dsimp only at e
+  split at e
+  · rename_i h; left; simpa using h
+  · split at e
+    · rename_i h; right; simpa using h
+    · cases e
+
+theorem encDeltas_limits {ds : List RecvDelta} {b : Bytes} (e : encDeltas ds = .ok b) : ∀ d ∈ ds, ∃ c, d.enc = .ok c := by
+  induction ds generalizing b with
+  | nil => simp
+  | cons d ds ih =>
+    simp only [encDeltas] at e
+    obtain ⟨a, ha, e⟩ := bind_eq_ok.mp e
+    obtain ⟨c, hc, e⟩ := bind_eq_ok.mp e
+    intro x hx
+    rcases List.mem_cons.mp hx with h | h
+    · subst h; exact ⟨a, ha⟩
+    · exact ih hc x h
+
+theorem writeDeltas_limits {ds : List RecvDelta} {payload out : Bytes} {pos : Nat} (e : writeDeltas ds payload pos = .ok out) :
+    ∀ d ∈ ds, ∃ c, d.enc = .ok c := by
+  induction ds generalizing payload pos with
+  | nil => simp
+  | cons d ds ih =>
+    simp only [writeDeltas] at e
+    obtain ⟨a, ha, e⟩ := bind_eq_ok.mp e
+    obtain ⟨p, hp, e⟩ := bind_eq_ok.mp e
+    intro x hx
+    rcases List.mem_cons.mp hx with h | h
+    · subst h; exact ⟨a, ha⟩
+    · exact ih e x h
+
+/-- TransportLayerCC: no delta is dropped — Marshal succeeds only if every receive delta fits its wire size -/
+theorem twcc_limits {t : Twcc} {b : Bytes} (e : t.enc = .ok b) : ∀ d ∈ t.deltas, ∃ c, d.enc = .ok c := by
+  unfold Twcc.enc at e
+  obtain ⟨h, hh, e⟩ := bind_eq_ok.mp e
+  dsimp only at e
+  split at e
+  · cases e
+  · split at e
+    · cases e
+    · obtain ⟨cs, hc, e⟩ := bind_eq_ok.mp e
+      obtain ⟨p1, hp1, e⟩ := bind_eq_ok.mp e
+      obtain ⟨p2, hp2, e⟩ := bind_eq_ok.mp e
+      exact writeDeltas_limits hp2
+
+/-! ### values exactly at the limits are accepted -/
+
+theorem header_at_limit (p : Bool) (t l : Nat) : (Header.enc ⟨p, 31, t, l⟩).isOk = true := by simp [Header.enc, Out.isOk]
+theorem total_lost_at_limit : (ReceptionReport.enc { totalLost := 16777215 }).isOk = true := by simp [ReceptionReport.enc, Out.isOk]
+theorem total_lost_above_limit : ReceptionReport.enc { totalLost := 16777216 } = .err := by simp [ReceptionReport.enc]
+theorem item_text_at_limit (t : Bytes) (h : t.length = 255) : (SDESItem.enc ⟨1, t⟩).isOk = true := by simp [SDESItem.enc, h, Out.isOk]
+theorem item_text_above_limit (t : Bytes) (h : t.length = 256) : SDESItem.enc ⟨1, t⟩ = .err := by simp [SDESItem.enc, h]
+theorem small_delta_at_limit : (RecvDelta.enc ⟨1, 255 * 250 + 249⟩).isOk = true := by decide
+theorem small_delta_above_limit : RecvDelta.enc ⟨1, 256 * 250⟩ = .err := by decide
+theorem large_delta_at_limit : (RecvDelta.enc ⟨2, -32768 * 250 - 249⟩).isOk = true := by decide
+theorem large_delta_above_limit : RecvDelta.enc ⟨2, 32768 * 250⟩ = .err := by decide
+theorem sr_31_reports_accepted (v : SenderReport) (h : v.WF) : ∃ b, v.enc = .ok b := ⟨_, SenderReport.enc_ok v h⟩
+theorem rr_accepted (v : ReceiverReport) (h : v.WF) : ∃ b, v.enc = .ok b := ⟨_, ReceiverReport.enc_ok v h⟩
+theorem remb_256_rejected (v : Remb) (h : v.ssrcs.length = 256) : v.enc = .err := by simp [Remb.enc, h]
+
 end Rtcp.C08
